@@ -63,6 +63,11 @@ var iosUnmanaged = []string{
 	// VRF unknown to Netspoc with two interfaces, the ACL (generated name)
 	// is bound to the second one
 	"interface Ethernet10\n ip address 10.10.10.1 255.255.255.0\n ip vrf forwarding Y\ninterface Ethernet11\n ip address 10.11.11.1 255.255.255.0\n ip vrf forwarding Y\n ip access-group e11-DRC-0 in\nip access-list extended e11-DRC-0\n permit ip any any\n",
+	// interface of a VRF unknown to Netspoc with a crypto map of two
+	// entries, each with a filter ACL that carries a generated name
+	"ip access-list extended cf12-1-DRC-0\n permit tcp host 10.1.1.1 host 10.2.2.2 eq 80\n deny ip any any\nip access-list extended cf12-2-DRC-0\n permit tcp host 10.1.1.1 host 10.3.3.3 eq 80\n deny ip any any\n" +
+		"crypto map cm12 1 ipsec-isakmp\n set ip access-group cf12-1-DRC-0 in\n set peer 10.156.1.2\ncrypto map cm12 2 ipsec-isakmp\n set ip access-group cf12-2-DRC-0 in\n set peer 10.156.1.3\n" +
+		"interface Ethernet12\n ip address 10.12.12.1 255.255.255.0\n ip vrf forwarding Z\n crypto map cm12\n",
 	// unknown interface with ACLs in both directions
 	"ip access-list extended e6_in\n permit ip host 10.5.5.31 any\nip access-list extended e6_out\n permit ip host 10.5.5.32 any\ninterface Ethernet6\n ip address 10.6.6.1 255.255.255.0\n ip access-group e6_in in\n ip access-group e6_out out\n",
 }
@@ -373,7 +378,7 @@ func panFrameSpace() *panSpace {
 func init() {
 	registerSharded("C07", c07Worker, func(tier string) core.Meta {
 		return core.Meta{ID: "C07", Level: "model_checking",
-			Rule: "states = distinct device-model states; device states = managed ACL pair space (len<=2 over 5 lines incl. group references) x all subsets of up to 2 (thorough 4) unmanaged items from an alphabet of 15 ASA / 8 IOS items (plain-named group-policy and tunnel-group chains through two-command objects down to generated filter ACLs, groups and pools, unbound plain-named ACL, group used only by it, group shared with a managed ACL, unknown interfaces - shutdown or not - with ACLs (also bound with per-user-override or control-plane), groups and crypto maps carrying generated names, routes of other family/VRF, unmodelled lines, aaa-server/ldap map, gdoi crypto map); IOS routes: devices with interfaces in three VRFs and every route subset, targets with routes for some VRFs only (routes of the other VRFs must stay); space aaa: a managed tunnel-group naming a hand-maintained aaa-server whose definition differs from the one in the target (protocol, hosts, attribute map) x tunnel-group variants on both sides; PAN-OS: two-vsys devices, target addressing one; transition = real planner; after every executed command every unmanaged entry must still be present with identical text and sub-commands (PAN-OS: the XML outside the targeted vsys is byte-identical); non-trivial = script non-empty. NSX (objects without the Netspoc prefix) is filtered while reading the manager and is therefore checked end to end by the dialogue engine (C11/C09 simulators), not here",
+			Rule: "states = distinct device-model states; device states = managed ACL pair space (len<=2 over 5 lines incl. group references) x all subsets of up to 2 (thorough 4) unmanaged items from an alphabet of 15 ASA / 9 IOS items (plain-named group-policy and tunnel-group chains through two-command objects down to generated filter ACLs, groups and pools, unbound plain-named ACL, group used only by it, group shared with a managed ACL, unknown interfaces - shutdown or not - with ACLs (also bound with per-user-override or control-plane), groups and crypto maps carrying generated names (also a crypto map of two entries with generated filter ACLs on an interface of an unknown VRF), routes of other family/VRF, unmodelled lines, aaa-server/ldap map, gdoi crypto map); IOS routes: devices with interfaces in three VRFs and every route subset, targets with routes for some VRFs only (routes of the other VRFs must stay); space aaa: a managed tunnel-group naming a hand-maintained aaa-server whose definition differs from the one in the target (protocol, hosts, attribute map) x tunnel-group variants on both sides; PAN-OS: two-vsys devices, target addressing one; transition = real planner; after every executed command every unmanaged entry must still be present with identical text and sub-commands (PAN-OS: the XML outside the targeted vsys is byte-identical); non-trivial = script non-empty. NSX (objects without the Netspoc prefix) is filtered while reading the manager and is therefore checked end to end by the dialogue engine (C11/C09 simulators), not here",
 			Assumptions: []string{"unmanaged content is what the statement lists; the check knows exactly which lines it added as unmanaged"},
 			Bounds:      map[string]any{"quick": "<=2 unmanaged items", "thorough": "<=4 unmanaged items"},
 		}
